@@ -1121,6 +1121,7 @@ def run_history1(args):
     ref = copy.deepcopy(init)
     td = build_subject(subject, init)
     fails = []
+    nfail = {}
     steps = []       # per step: op, flags, probes, impl outcome, ret, state, obs, results
     hist = {}
     case = {"subject": subject, "init": val_json(init), "ops": []}
@@ -1138,6 +1139,10 @@ def run_history1(args):
         def fail(label, tag, detail, sig, _i=i, _op=op):
             if subject != "td":
                 sig = dict(sig, subject=subject)
+            fk = (label, json.dumps(sig, sort_keys=True))
+            nfail[fk] = nfail.get(fk, 0) + 1
+            if nfail[fk] > 1:
+                return  # one replayable instance per kind and history is kept; the rest is counted
             c = copy.deepcopy(case)
             c["ops"] = c["ops"][:_i]
             for o in c["ops"]:
@@ -1231,6 +1236,8 @@ def run_history1(args):
         if subject == "tc":
             oracle_holder(ref, td, [(k, tuple(f)) for k, f in probes], fail)
         steps.append(st)
+    for (label, sigj), n in nfail.items():
+        hist["oracle-failure:" + label] = hist.get("oracle-failure:" + label, 0) + n
     return {"case": case, "steps": steps, "fails": fails, "hist": hist}
 
 
@@ -1349,7 +1356,7 @@ def main(R):
     R.step_prove()
     ok = R.step_driver()
     _imports()
-    nh, nops = (1200, 22) if R.quick else (30000, 50)
+    nh, nops = (1200, 22) if R.quick else (6000, 50)
     jobs = [(R.rng.getrandbits(48), nops if R.rng.random() < 0.8 else R.rng.randint(3, nops), R.quick, "td", None) for _ in range(nh)]
     # corpus first
     cdir = os.path.join(os.path.dirname(os.path.dirname(os.path.abspath(__file__))), "corpus", PID)
@@ -1359,45 +1366,71 @@ def main(R):
             if f.endswith(".json"):
                 cj = json.load(open(os.path.join(cdir, f)))
                 corpus.append((0, 0, R.quick, cj.get("subject", "td"), cj))
-    nl = 150 if R.quick else 3000
+    nl = 150 if R.quick else 1500
     jobs += [(R.rng.getrandbits(48), 16, R.quick, "lazy", None) for _ in range(nl)]
-    jobs += [(R.rng.getrandbits(48), 16, R.quick, "tc", None) for _ in range(100 if R.quick else 2000)]
+    jobs += [(R.rng.getrandbits(48), 16, R.quick, "tc", None) for _ in range(100 if R.quick else 1000)]
     jobs = corpus + jobs
     import multiprocessing as mp
     ctx = mp.get_context("fork")
-    with ctx.Pool(min(16, os.cpu_count() or 1)) as pool:
-        results = pool.map(run_history, jobs, chunksize=4)
-    lines = []
-    for res in results:
-        case = res["case"]
-        ops = [s["op"]["op"] for s in case["ops"]]
-        nested = any("t" in json.dumps(s["op"]) for s in case["ops"])
-        R.case(json.dumps(case, sort_keys=True), nontrivial=len(ops) >= 3 and len(set(ops)) >= 2 and nested,
-               sample={"init": case["init"], "ops": [s["op"] for s in case["ops"][:4]]})
-        for k, v in res["hist"].items():
-            R.count(k, v)
-        for (label, c, detail, sig) in res["fails"]:
-            R.oracle_fail(label, c, detail, sig)
-        R.traces += len(res["steps"])
-        R.count("subject:" + case.get("subject", "td"))
-        if res["steps"] and case.get("subject", "td") == "td":
-            lines.append(history_line(dict(case, flags0=res["steps"][0]["flags"], probes0=res["steps"][0]["probes"])))
-    if ok:
+    import hashlib
+    unobservable, t0, done = 0, time.time(), 0
+
+    def process(batch):
+        """register one batch of histories and compare it with the model (then it is dropped: memory)"""
+        lines, tds = [], []
+        for res in batch:
+            case = res["case"]
+            ops = [s_["op"]["op"] for s_ in case["ops"]]
+            nested = any("t" in json.dumps(s_["op"]) for s_ in case["ops"])
+            R.case(hashlib.sha1(json.dumps(case, sort_keys=True).encode()).hexdigest(),
+                   nontrivial=len(ops) >= 3 and len(set(ops)) >= 2 and nested,
+                   sample={"subject": case.get("subject", "td"), "init": case["init"], "ops": [s_["op"] for s_ in case["ops"][:4]]})
+            for k, v in res["hist"].items():
+                R.count(k, v)
+            for (label, c, detail, sig) in res["fails"]:
+                R.oracle_fail(label, c, detail, sig)
+            R.traces += len(res["steps"])
+            R.count("subject:" + case.get("subject", "td"))
+            if res["steps"] and case.get("subject", "td") == "td":
+                lines.append(history_line(dict(case, flags0=res["steps"][0]["flags"], probes0=res["steps"][0]["probes"])))
+                tds.append(res)
+        if not ok or not lines:
+            return
         out = R.model(lines)
-        for res, m in zip([r for r in results if r["steps"] and r["case"].get("subject", "td") == "td"], out):
+        for res, m in zip(tds, out):
             if not (isinstance(m, list) and len(m) == len(res["steps"])):
                 R.mismatch("history", res["case"], "n/a", repr(m)[:400])
                 continue
-            for i, (st, ms) in enumerate(zip(res["steps"], m)):
+            for i_, (st, ms) in enumerate(zip(res["steps"], m)):
                 im = impl_step_as_model(st)
                 if im != ms:
-                    fld = next((FIELDS[j] for j in range(min(len(im), len(ms))) if im[j] != ms[j]), "shape")
-                    j = FIELDS.index(fld) if fld in FIELDS else 0
-                    c = dict(res["case"], ops=res["case"]["ops"][:i], failing_step=i)
-                    R.mismatch(f"step:{st['op']['op'] if st['op'] else 'init'}:{fld}", c,
-                               repr(im[j] if j < len(im) else im)[:600], repr(ms[j] if j < len(ms) else ms)[:600])
+                    fld = next((FIELDS[j_] for j_ in range(min(len(im), len(ms))) if im[j_] != ms[j_]), "shape")
+                    j_ = FIELDS.index(fld) if fld in FIELDS else 0
+                    c = dict(res["case"], ops=res["case"]["ops"][:i_], failing_step=i_)
+                    if len(R.mismatches) < 200:
+                        R.mismatch(f"step:{st['op']['op'] if st['op'] else 'init'}:{fld}", c,
+                                   repr(im[j_] if j_ < len(im) else im)[:600], repr(ms[j_] if j_ < len(ms) else ms)[:600])
+                    else:
+                        R.mismatches.append(("(more)", None, None, None))
                     R.count("mismatch:" + (st['op']['op'] if st['op'] else 'init') + ":" + fld)
                     break
+
+    batch = []
+    with ctx.Pool(min(16, os.cpu_count() or 1)) as pool:
+        for res in pool.imap(run_history, jobs, chunksize=4):
+            batch.append(res)
+            done += 1
+            unobservable += 1 if not res["steps"] else 0
+            if len(batch) >= 300:
+                process(batch)
+                batch = []
+            # histories that cannot even be observed (time budget, escaped exceptions) are failures by themselves;
+            # once there are many, the verdict is settled and the remaining budget is not spent on them
+            if unobservable >= 24 or (R.quick and time.time() - t0 > 150):
+                R.extra["stopped_early"] = f"{done} of {len(jobs)} histories run ({unobservable} not observable)"
+                pool.terminate()
+                break
+    process(batch)
 
 
 def replay(body):
